@@ -418,6 +418,21 @@ def _gen_total(ck: Check, prog: Program) -> None:
             apps = [n for n in body for c in calls_in(n) if isinstance(c.func, ast.Attribute) and c.func.attr == 'append']
             first = [e.dst for e in cfg.succ[h.id] if e.label == 'body']
             ok_e = len(apps) == 1 and not any(h.id in cfg.reachable(s_, avoid_nodes=apps) for s_ in first if s_ not in apps)
+        elif not heads:
+            # no statement loop: the alternatives are built as a sequence value (`[ok, *map(f, errors)]`, a comprehension): read how the
+            # list under `oneOf` is made — it takes one element from every declared error, unfiltered
+            from ..flow import Flow as _FlowR
+            fl_r = _FlowR(cfg)
+            pnames = [p.arg for p in brs.params]
+            for n_ in cfg.stmt_nodes():
+                if n_.kind == 'stmt' and isinstance(n_.ast, ast.Return) and n_.ast.value is not None:
+                    for al in fl_r.alts(n_, n_.ast.value):
+                        if isinstance(al.expr, ast.Dict):
+                            for k_, v_ in zip(al.expr.keys, al.expr.values):
+                                if isinstance(k_, ast.Constant) and k_.value in ('oneOf', 'anyOf'):
+                                    for sq in fl_r.seq(al.node or n_, v_):
+                                        if sq.kind == 'iter' and dotted(sq.iter) in pnames and sq.total and not sq.filters:
+                                            ok_e = True
         ck.ob('COMPLETE-LOOP', 'build_response_schema: every declared error contributes one alternative to the response schema', ok_e)
         if not ok_e:
             ck.finding('COMPLETE-LOOP', brs.qualname, 'declared errors are not all described', brs.module.rel, brs.node.lineno,
